@@ -730,8 +730,22 @@ func executePlannedSelection(eCtx *executionContext, sp *selectionPlan, source i
 // coercion.
 func resolvePlannedField(eCtx *executionContext, parentType *Object, source interface{}, fp *fieldPlan, path *ResponsePath) (result interface{}, ok bool) {
 	var returnType Output
+	var resolveFieldFinishFn resolveFieldFinishFuncHandler
+	resolveFinished := false
 	defer func() {
 		if r := recover(); r != nil {
+			if resolveFieldFinishFn != nil && !resolveFinished {
+				// the resolver panicked: the extensions that were told the field
+				// started are told that it failed
+				resolveFinished = true
+				rerr, isErr := r.(error)
+				if !isErr {
+					rerr = fmt.Errorf("%v", r)
+				}
+				if extErrs := resolveFieldFinishFn(nil, rerr); len(extErrs) != 0 {
+					eCtx.Errors = append(eCtx.Errors, extErrs...)
+				}
+			}
 			// a failed field contributes null, never the value the resolver
 			// may have returned next to its error
 			result = nil
@@ -780,7 +794,6 @@ func resolvePlannedField(eCtx *executionContext, parentType *Object, source inte
 	// Extensions allocate a per-field map + closure even when none are
 	// registered. Skip entirely on the common no-extensions schema —
 	// saves ~22% of allocs per resolved field on hot paths.
-	var resolveFieldFinishFn resolveFieldFinishFuncHandler
 	if len(eCtx.Schema.extensions) > 0 {
 		var extErrs []gqlerrors.FormattedError
 		extErrs, resolveFieldFinishFn = handleExtensionsResolveFieldDidStart(eCtx.Schema.extensions, eCtx, &info)
@@ -798,6 +811,7 @@ func resolvePlannedField(eCtx *executionContext, parentType *Object, source inte
 	})
 
 	if resolveFieldFinishFn != nil {
+		resolveFinished = true
 		extErrs := resolveFieldFinishFn(result, resolveFnError)
 		if len(extErrs) != 0 {
 			eCtx.Errors = append(eCtx.Errors, extErrs...)
